@@ -56,6 +56,21 @@ def split_writelines(tree):
             setattr(node, f, out)
 
 
+def drop_dead_local_defs(tree):
+    """a function defined inside another one and never mentioned there has no effect (what it did now stands at its former call sites)"""
+    for fn in ast.walk(tree):
+        if not isinstance(fn, (ast.FunctionDef, ast.AsyncFunctionDef)):
+            continue
+        for lst in _stmt_lists(fn):
+            for s in list(lst):
+                if isinstance(s, ast.FunctionDef) and not s.decorator_list and all(isinstance(d, ast.Constant) for d in s.args.defaults + [d for d in s.args.kw_defaults if d is not None]):
+                    used = any(isinstance(n, ast.Name) and n.id == s.name for n in ast.walk(fn) if n is not s) or any(isinstance(n, (ast.Global, ast.Nonlocal)) and s.name in n.names for n in ast.walk(fn))
+                    inner = any(isinstance(n, ast.Name) and n.id == s.name for n in ast.walk(s))
+                    refs = sum(1 for n in ast.walk(fn) if isinstance(n, ast.Name) and n.id == s.name) - sum(1 for n in ast.walk(s) if isinstance(n, ast.Name) and n.id == s.name)
+                    if refs == 0 and len(lst) > 1:
+                        lst.remove(s)
+
+
 def split_chained_assign(tree):
     """t1 = n = E   ->   n = E; t1 = n      (n a plain name that the other targets do not mention)"""
     for node in ast.walk(tree):
@@ -2005,6 +2020,8 @@ def normalize_package(trees, known=None, passes=None):
             _Fold().visit(t)
         if on(8):
             unroll_const_loops(t)
+        if on(5):
+            drop_dead_local_defs(t)
         if on(7):
             canon_flow(t)
         ast.fix_missing_locations(t)
